@@ -253,15 +253,20 @@ type cfg struct {
 	keys []mux.Int
 	big  bool // every second value is bigger than the whole LRU
 	nils bool // every second value written is the untyped nil
+	deep int  // queue depth per worker (0: 8)
 }
 
 func newWorld(w *mc.World, c cfg, faults bool) *world {
 	var g *mux.WorkerGrp
 	bigValues = c.big
+	deep := 8
+	if c.deep > 0 {
+		deep = c.deep
+	}
 	if c.lru > 0 {
-		g = mux.NewWorkGrpWithLRU(c.lru, mux.WithSize(c.size), mux.WithDeep(8))
+		g = mux.NewWorkGrpWithLRU(c.lru, mux.WithSize(c.size), mux.WithDeep(deep))
 	} else {
-		g = mux.NewWorkGrpWithMapCache(mux.WithSize(c.size), mux.WithDeep(8))
+		g = mux.NewWorkGrpWithMapCache(mux.WithSize(c.size), mux.WithDeep(deep))
 	}
 	s := &store{w: w, m: map[mux.Int]interface{}{}, inside: map[mux.Int]int{}, loads: map[mux.Int]int{}, faults: faults}
 	x := &world{w: w, g: g, s: s, inflight: map[mux.Int]int{}, epoch: map[mux.Int]int{}, keys: c.keys, nilValues: c.nils}
@@ -431,13 +436,14 @@ func optionsScenario() *mc.Scenario {
 
 func scenarios(r *ev.Run) []*mc.Scenario {
 	cfgs := []cfg{
-		{"map/workers=1", 0, 1, []mux.Int{1, 2}, false, false},
-		{"map/workers=2", 0, 2, []mux.Int{1, 3}, false, false}, // 1 and 3 share worker 1
-		{"map/workers=2/two-workers", 0, 2, []mux.Int{1, 2}, false, false},
-		{"lru=1/workers=1", 1, 1, []mux.Int{1, 2}, false, false},
-		{"lru=2/workers=1", 2, 1, []mux.Int{1, 2}, false, false},
-		{"lru=2/workers=1/oversized-values", 2, 1, []mux.Int{1, 2}, true, false},
-		{"map/workers=1/nil-values", 0, 1, []mux.Int{1, 2}, false, true},
+		{"map/workers=1", 0, 1, []mux.Int{1, 2}, false, false, 0},
+		{"map/workers=2", 0, 2, []mux.Int{1, 3}, false, false, 0}, // 1 and 3 share worker 1
+		{"map/workers=2/two-workers", 0, 2, []mux.Int{1, 2}, false, false, 0},
+		{"lru=1/workers=1", 1, 1, []mux.Int{1, 2}, false, false, 0},
+		{"lru=2/workers=1", 2, 1, []mux.Int{1, 2}, false, false, 0},
+		{"lru=2/workers=1/oversized-values", 2, 1, []mux.Int{1, 2}, true, false, 0},
+		{"map/workers=1/nil-values", 0, 1, []mux.Int{1, 2}, false, true, 0},
+		{"map/workers=1/queue-depth=1", 0, 1, []mux.Int{1, 2}, false, false, 1}, // a third concurrent operation is refused (queue full)
 	}
 	scs := []*mc.Scenario{optionsScenario()}
 	for ci, c := range cfgs {
@@ -456,8 +462,10 @@ func scenarios(r *ev.Run) []*mc.Scenario {
 				// the same programs without injected failures go one preemption deeper
 				concurrent(c, "update|delete|get", [][]step{{{2, k1}}, {{3, k1}}, {{0, k1}}}, seed, false, [2]int{2, 3}, [2]int{0, 0}),
 				concurrent(c, "add|add|delete", [][]step{{{1, k1}}, {{1, k1}}, {{3, k1}}}, nil, false, [2]int{2, 3}, [2]int{0, 0}),
-				ordered(c),
 			)
+			if c.deep == 0 { // the acceptance-order program queues three operations at once
+				scs = append(scs, ordered(c))
+			}
 		}
 		scs = append(scs,
 			concurrent(c, "two-keys/update(k1),get(k2)|add(k2),delete(k1)", [][]step{{{2, k1}, {0, k2}}, {{1, k2}, {3, k1}}}, seed, true, pb, [2]int{1, 1}),
